@@ -13,3 +13,4 @@ def rules(ctx):
     S.c07_rules(ctx)
     S.c02_r2_register_before_root(ctx)
     S.c06_r6_restore(ctx)
+    S.refcount_rules(ctx)
